@@ -44,7 +44,7 @@ void run_unknown_runtime_cases() {
         int ci = (int)r.range(0, 3), ri = (int)r.range(0, 8), si = (int)r.range(0, 8); bool viaclass = r.coin(0.4);
         std::string cn = COARSENINGS[ci], rn = RELAXATIONS[ri], sn = SOLVERS[si];
         ptree t; t.put("precond.coarsening.type", cn); t.put("precond.relax.type", rn); t.put("solver.type", sn); if (viaclass) t.put("precond.class", "amg");
-        t.put("precond.coarse_enough", 30); t.put("solver.maxiter", 5);
+        t.put("precond.coarse_enough", 30); if (si != 8) t.put("solver.maxiter", 5);   // preonly has no parameters: maxiter would legitimately be reported
         std::vector<std::string> levels = {"", "precond", "precond.coarsening", "precond.relax", "solver"};
         if (ci != 3) { levels.push_back("precond.coarsening.aggr"); levels.push_back("precond.coarsening.nullspace"); }
         if (ri >= 5) levels.push_back("precond.relax.solve");
